@@ -711,7 +711,7 @@ void vf_run(vf::Ctx& c)
     // three objects: x = c%3, y = (x+1+(c/3)%2)%3.  Prefix: give objects 0 and 1 a value (code 0 stores a fresh value for all
     // three owners; for inplace_function: 2 and 4 captures), object 2 stays empty / default; shapes: (x=2,y=0), (x=0,y=1), (x=1,y=0)
     c03::run_pairs(c, {RawOp{0, 1, 0, 9}, RawOp{0, 2, 0, 16}}, {RawOp{0, 0, 1, 2}, RawOp{0, 1, 0x1F, 72}, RawOp{0, 2, 0x2E, 22}});
-    c03::run_histories(c, 7500, 60000, 30);
+    c03::run_histories(c, 4000, 60000, 30);
 }
 
 std::string vf_replay(std::string const&, std::string const& cs)
